@@ -737,6 +737,36 @@ func checkAndPropagateArgs(
 	return nil
 }
 
+// memberExecutionType computes the return type of methodT for one member
+// class of a union receiver.
+func memberExecutionType(
+	m *MethodEvaluator,
+	class string,
+	methodT *base.T,
+	evaluatedArgs []*base.T,
+) *base.T {
+
+	receiverT := m.evaluatedObjectT
+
+	for _, variant := range receiverT.GetVariants() {
+		if variant.GetObjectClass() == class {
+			memberT := variant
+			m.evaluatedObjectT = &memberT
+
+			break
+		}
+	}
+
+	defer func() { m.evaluatedObjectT = receiverT }()
+
+	switch methodT.GetType() {
+	case base.SELF, base.SELF_ARRAY, base.UNIFY, base.OPTIONAL_UNIFY, base.ARGUMENT:
+		return calculateExecutionType(m, methodT.DeepCopy(), evaluatedArgs).DeepCopy()
+	}
+
+	return methodT.DeepCopy()
+}
+
 func checkAndPropagateArgsForUnionWithReturnT(
 	m *MethodEvaluator,
 	classNames []string,
@@ -750,22 +780,25 @@ func checkAndPropagateArgsForUnionWithReturnT(
 			return nil, err
 		}
 
-		// the result is built on copies: methodTs are the entries of the method
-		// table itself
+		// what this member of the receiver union returns: the declared type with
+		// Self, Unify, ... resolved against that member (on a copy: methodTs are
+		// the entries of the method table itself)
+		memberReturnT := memberExecutionType(m, class, methodTs[idx], evalutedArgs)
+
 		if returnT == nil {
-			returnT = methodTs[idx].DeepCopy()
+			returnT = memberReturnT
 
 			continue
 		}
 
 		if returnT.IsUnionType() {
-			returnT.AppendVariant(*methodTs[idx])
+			returnT.AppendVariant(*memberReturnT)
 
 			continue
 		}
 
-		if methodTs[idx].IsUnionType() {
-			unionT := methodTs[idx].DeepCopy()
+		if memberReturnT.IsUnionType() {
+			unionT := memberReturnT.DeepCopy()
 			unionT.AppendVariant(*returnT)
 
 			returnT = base.MakeUnion(unionT.GetVariants())
@@ -773,8 +806,8 @@ func checkAndPropagateArgsForUnionWithReturnT(
 			continue
 		}
 
-		if !returnT.IsMatchType(methodTs[idx]) {
-			returnT = base.MakeUnion([]base.T{*returnT, *methodTs[idx]})
+		if !returnT.IsMatchType(memberReturnT) {
+			returnT = base.MakeUnion([]base.T{*returnT, *memberReturnT})
 
 			continue
 		}
